@@ -44,6 +44,8 @@ pub struct StoreInner {
     pub mismatches: Vec<String>,
     /// every general (non-commit) write batch, for conservation oracles
     pub general_batches: u64,
+    /// per handle: epoch of the epoch record most recently read from the database
+    pub last_azks_read: HashMap<u16, u64>,
 }
 
 #[derive(Clone)]
@@ -72,6 +74,7 @@ impl SimStore {
                 commits: vec![],
                 mismatches: vec![],
                 general_batches: 0,
+                last_azks_read: HashMap::new(),
             })),
         }
     }
@@ -105,6 +108,10 @@ impl SimStore {
 
     pub fn take_mismatches(&self) -> Vec<String> {
         std::mem::take(&mut self.inner.lock().unwrap().mismatches)
+    }
+
+    pub fn last_azks_read(&self, handle: u16) -> Option<u64> {
+        self.inner.lock().unwrap().last_azks_read.get(&handle).copied()
     }
 
     pub fn current_epoch(&self) -> Option<u64> {
@@ -263,6 +270,9 @@ impl Database for SimDb {
                     (Ok(a), Some(b)) if a == b => {}
                     (Err(StorageError::NotFound(_)), None) => {}
                     _ => self.note_mismatch(format!("get {}: memory.rs={got:?} shadow={want:?}", hex::encode(&key))),
+                }
+                if let Ok(DbRecord::Azks(a)) = &got {
+                    self.store.inner.lock().unwrap().last_azks_read.insert(self.handle, a.latest_epoch);
                 }
                 got
             }
